@@ -907,6 +907,14 @@ func (v *Verifier) VerifyFunction(fn *ssa.Function, fc *FuncContract) (err error
 		}
 		st.ghost[name] = gv
 	}
+	for _, ax := range v.contracts.axioms {
+		if ax.Scope != "" && ax.Scope != curScope {
+			continue
+		}
+		ev := &Eval{v: v, st: st, old: st, env: map[string]*Value{}, mode: evalCall, pkg: fnPkg(fn)}
+		st.assume(ev.boolExpr(ax.Expr))
+		v.assumptions["axiom ("+ax.Scope+"): "+ax.Text] = true
+	}
 	st.frame = nil
 	st.ghost["$gocount"] = scalar(types.Typ[types.Int], Int(0))
 	st.ghost["$didlock"] = scalar(types.Typ[types.Bool], False)
